@@ -7,7 +7,7 @@ from ..stream import (ScriptedSocket, CaptureSocket, ShortWriteSocket, Budget, W
 
 LEVEL = 'fault_enumeration'
 ENGINE = 'STREAM'
-TECHNIQUE = 'bounded exhaustive enumeration of stream segmentations and truncation points against the real recv_msg (explicit enumeration, no sampling)'
+TECHNIQUE = 'bounded exhaustive enumeration of stream segmentations and truncation points against the real recv_msg, and of short-write answers of the kernel (send/sendmsg taking part of the data) against the real send_msg (explicit enumeration, no sampling)'
 LEVEL_TEXT = ('every segmentation (all 2^(n-1) for short streams; all single and double cuts over a boundary/power-of-two offset set and uniform chunkings down to 1 byte for long ones) and every truncation offset x {FIN,RST} of real send_msg output is replayed into the real recv_msg through a scripted socket; the oracle is equality with the sent messages followed by ConnectionClosedError, with a recv budget turning spins into verdicts')
 LEVEL_NOTE = 'trusts the scripted socket to model POSIX recv semantics; payload menu is finite; long streams are cut only at the enumerated offset set, not at every offset pair'
 
